@@ -414,8 +414,8 @@ func compareScreen(scr []string, st *tty.Status, g geom, nonce string, headerLin
 	if len(list) != wantRows {
 		return fmt.Sprintf("%d list rows are drawn, %d results fit the %d available rows", len(list), wantRows, avail), false, len(list)
 	}
-	if st.MatchCount == 0 {
-		return "", false, 0
+	if st.MatchCount == 0 || len(list) == 0 {
+		return "", false, 0 // nothing matched, or the window has no room for list rows
 	}
 	// locate the pointer
 	pidx := -1
